@@ -106,6 +106,15 @@ def trigCustomOpsPruned (cfg : Config) (inp : Input) (p : PackageIR) : Bool :=
 def trigCustomOpsInputsModule (cfg : Config) (inp : Input) : Bool :=
   cfg.customOps && cfg.inputsModule != "input_types" && !(customNeeds inp .input).isEmpty
 
+/-- custom_fields.py / custom_queries.py / custom_mutations.py turn every field and argument name of the
+    object and interface types into a method / parameter name of their own (Model/CustomGen.lean, C14): a name
+    that is (or snake-cases to) a keyword or a non-identifier is emitted as it is (`def class(cls)`, `def 1(cls)`) -/
+def trigCustomOpsName (cfg : Config) (inp : Input) : Bool :=
+  cfg.customOps &&
+    ((inp.schema.types.filter fun t => t.kind == .object || t.kind == .interface).flatMap fun t =>
+      t.fields.flatMap fun f => f.name :: f.args.map (·.name)).any fun n =>
+        !identOK n || !identOK (String.ofList (Names.snake n.toList))
+
 def inputFieldsOf (inp : Input) : List InputGen.InputField :=
   inp.defs.flatMap fun | .input _ fs => fs | _ => []
 
@@ -146,6 +155,7 @@ def triggers (cfg : Config) (inp : Input) : List String :=
   ++ (if trigCustomOpsFileClash cfg inp then ["customOpsFileClash"] else [])
   ++ (if onIR (trigCustomOpsPruned cfg inp) then ["customOpsPruned"] else [])
   ++ (if trigCustomOpsInputsModule cfg inp then ["customOpsInputsModule"] else [])
+  ++ (if trigCustomOpsName cfg inp then ["customOpsName"] else [])
   ++ (if trigKeywordEnumDefault inp then ["keywordEnumDefault"] else [])
   ++ (if trigEnumInObjectDefault cfg inp then ["enumInObjectDefault"] else [])
   ++ (if trigText .quote inp then ["textQuote"] else [])
